@@ -93,6 +93,7 @@ type Explorer struct {
 	stats       Stats
 	violations  []Violation
 	abortMsgs   map[string]int
+	violPerLabel map[string]int
 	tags        map[string]int64
 	funcs       map[string]bool
 	samples     []string
@@ -341,7 +342,14 @@ func (w *Worker) runItem(it *Item) {
 		ex.abortMsgs[outcome.msg]++
 	case "violation":
 		ex.stats.Violations++
-		if len(ex.violations) < ex.maxViol {
+		// keep up to maxViol counterexamples per distinct (kind, label), so that a
+		// rare kind of violation is never crowded out by a frequent one
+		key := outcome.viol.Kind + "|" + outcome.viol.Label
+		if ex.violPerLabel == nil {
+			ex.violPerLabel = map[string]int{}
+		}
+		if ex.violPerLabel[key] < ex.maxViol && len(ex.violations) < 40*ex.maxViol {
+			ex.violPerLabel[key]++
 			ex.violations = append(ex.violations, *outcome.viol)
 		}
 	}
